@@ -679,3 +679,74 @@ def c04(ctx):
         assumptions=["lexical forms (number formatting, escapes, base64, CID strings) are judged through independent Go "
                      "oracles: encoding/json tokenizer, encoding/base64, math/big, strconv"],
         exhaustive=True)
+
+
+# --------------------------------------------------------------------------- schemas
+NTYPES = 23
+
+
+def sg_cfg(mode, shard, nshards, mutevery):
+    return """SPECIFICATION Spec
+CONSTANTS
+  SMode = "%s"
+  Shard = %d
+  NShards = %d
+  MutEvery = %d
+INVARIANTS ReprRoundTrips FeedRoundTrips AcceptedMutantsAreInhabitants Emit
+CHECK_DEADLOCK FALSE
+""" % (mode, shard, nshards, mutevery)
+
+
+def schema_cases(ctx, mode, mutevery, label):
+    jobs, files = [], []
+    for sh in range(NTYPES):
+        f = os.path.join(ctx.scratch, "sg-%s-%d.ndjson" % (label, sh))
+        files.append(f)
+        jobs.append(dict(module="SchemaGen", cfg=sg_cfg(mode, sh, NTYPES, mutevery), capture=f, workers=1,
+                         heap="2g", timeout=3000))
+    ctx.tlc_parallel(jobs, max_procs=16)
+    allf = os.path.join(ctx.scratch, "sg-%s.ndjson" % label)
+    with open(allf, "w") as out:
+        for f in files:
+            out.write(open(f).read())
+            os.remove(f)
+    return allf
+
+
+@prop("C08")
+def c08(ctx):
+    f = schema_cases(ctx, "conforming", 1, "conf")
+    args = ["schema", "-in", f, "-roundtrip"]
+    ctx.absorb(ctx.vh_run(args, timeout=3000), args, label="schema/conforming")
+    return ctx.finish(
+        "model_checking",
+        rule="cases = every inhabitant (up to the value bound) of each of 23 types of the catalogue: every representation "
+             "strategy (struct map with renames / tuple / stringjoin / listpairs, union keyed / kinded / stringprefix, enum "
+             "string / int, typed maps and lists), each nested in others, every optional / nullable / both combination; TLC "
+             "checks FromRepr(ReprOf(tv)) = tv and FromType(Feed(tv)) = tv on the specification and emits (type, type-level "
+             "input, typed value, representation view); the harness builds the value through the type-level AND the "
+             "representation-level builder of bindnode, reads both views of both nodes through every read form, then "
+             "encodes the representation (dag-cbor, dag-json), decodes through the representation builder and re-encodes; "
+             "non-trivial = every case; distinct = distinct (type, value)",
+        assumptions=["stringjoin field values and stringprefix member strings do not contain the delimiter (the representation "
+                     "is not injective there by construction)", "generated code is compared under C13"],
+        exhaustive=True)
+
+
+@prop("C09")
+def c09(ctx):
+    quick = ctx.tier == "quick"
+    f = schema_cases(ctx, "mutants", 29 if quick else 5, "mut")
+    args = ["schema", "-in", f]
+    ctx.absorb(ctx.vh_run(args, timeout=3000), args, label="schema/mutants")
+    return ctx.finish(
+        "model_checking",
+        rule="cases = every local mutation (dropped / duplicated / renamed-to-unknown / renamed-to-another-name / nulled / "
+             "retyped / reordered / extra entry or element / wrong container / out-of-range scalar, at every position) of the "
+             "type-level input and of the representation of a hashed sample of the inhabitants of each of the 23 types; "
+             "FromType / FromRepr of Schema.tla give the verdict and, when accepted, the typed value; the harness feeds each "
+             "tree to bindnode's builders under recover(): a panic, an acceptance of a non-conforming tree, a refusal of a "
+             "conforming one or a node that does not read back as the specified typed value is a disagreement; "
+             "non-trivial = every case; distinct = distinct (type, level, input)",
+        assumptions=["inputs are fed directly as assembler calls (duplicate keys included)"],
+        exhaustive=not quick)
